@@ -39,9 +39,17 @@ type chunkReader struct {
 	i      int
 	last   int
 	Bounds []int
+
+	eofWithData bool
 }
 
+// A first size of -1 makes the reader deliver its last bytes together with io.EOF (allowed by the io.Reader
+// contract; HTTP bodies and iotest.DataErrReader do it) instead of reporting the end in a read of its own.
 func (r *chunkReader) Read(p []byte) (int, error) {
+	if r.i == 0 && len(r.sizes) > 0 && r.sizes[0] == -1 {
+		r.eofWithData = true
+		r.i = 1
+	}
 	if r.pos >= len(r.data) {
 		return 0, io.EOF
 	}
@@ -70,6 +78,8 @@ func (r *chunkReader) Read(p []byte) (int, error) {
 	r.pos += n
 	if r.pos < len(r.data) {
 		r.Bounds = append(r.Bounds, r.pos)
+	} else if r.eofWithData {
+		return n, io.EOF
 	}
 	return n, nil
 }
@@ -314,6 +324,14 @@ func genStream(rt *rapid.T) (reflect.Type, []byte, bool) {
 }
 
 func genSizes(rt *rapid.T, n int) []int {
+	sizes := genSizes0(rt, n)
+	if rapid.IntRange(0, 2).Draw(rt, "eofWithData") == 0 {
+		sizes = append([]int{-1}, sizes...)
+	}
+	return sizes
+}
+
+func genSizes0(rt *rapid.T, n int) []int {
 	switch rapid.IntRange(0, 3).Draw(rt, "frag") {
 	case 0: // fixed chunk size
 		return []int{rapid.IntRange(1, 300).Draw(rt, "chunk")}
@@ -378,6 +396,11 @@ func TestEverySplit(t *testing.T) {
 		for k := 1; k < len(wire); k++ {
 			runCase(rt, "every-split", "TestEverySplit", typ, wire, simple, []int{k, len(wire) + 16}, buf, sentinel)
 		}
+		for _, k := range []int{1, len(wire) / 2, len(wire) - 1, len(wire) + 16} {
+			if k >= 1 {
+				runCase(rt, "every-split", "TestEverySplit", typ, wire, simple, []int{-1, k, len(wire) + 16}, buf, sentinel)
+			}
+		}
 		max := len(wire)
 		if max > 300 {
 			max = 300
@@ -410,6 +433,7 @@ func TestTokenStreaming(t *testing.T) {
 						typ, wire = reflect.SliceOf(d), []byte("a1{"+tok.At(1)+"}")
 					}
 					runCase(t, "token-streaming", "TestTokenStreaming", typ, wire, simple, []int{1}, 256, true)
+					runCase(t, "token-streaming", "TestTokenStreaming", typ, wire, simple, []int{-1, len(wire) + 16}, 256, true)
 					for k := 1; k < len(wire)+1 && k < 80; k++ {
 						runCase(t, "token-streaming", "TestTokenStreaming", typ, wire, simple, []int{k, len(wire) + 16}, 256, true)
 					}
